@@ -22,7 +22,13 @@ What is partial, and why (each with a witness below, replayed on the real server
   inserted before the store and database writes succeed), and "kept, as this very message" needs
   `HashInjectiveOn` (the hash ignores Date, Message-Id, …: a different message is dropped as known);
 * at most once needs `NoFaultAfterHashErase` (MOVE out of the recovery mailbox erases the hashes
-  before the destination is written).
+  before the destination is written), and speaks about hashable literals only: a literal whose
+  hash cannot be computed (`Lit.hashOk = false`, `leavesHashOk`) is kept on EVERY rejection
+  (`append_reject_unhashable_recovered`, `unhashable_recovered_each_time`).
+
+Message shapes.  `Lit.hashOk` is what `rfc822.GetMessageHash` answers; `Model/Append.lean`
+(`Leaf.hashOk`, `leavesHashOk`) says when it fails, the oracle compares that with the real function
+on one literal per MIME shape (`c20-shape`), and sends every shape through the rejection path.
 -/
 import GluonModel.Lemmas.AppendCan
 import GluonModel.Generated.Facts.Append
@@ -39,7 +45,9 @@ open Gluon Gluon.Append
     the model); MOVE out of the recovery mailbox erases the hashes before writing the destination;
     the expunge path erases before removing; which functions guard the name and how; size is the
     only error `Mailbox.Append` exempts from the recovery insert; which connector-update handlers
-    refuse the recovery mailbox's ID (that protection "by remote ID" is tracked here, not modelled).  A source change that touches any
+    refuse the recovery mailbox's ID (that protection "by remote ID" is tracked here, not modelled); the
+    control-flow skeleton of the recovery path (which errors are swallowed, no shortcut in the import
+    loops, no rewriting of a guarded name).  A source change that touches any
     of these changes `Generated/Facts/Append.lean` and breaks this theorem: the model has to be
     looked at again. -/
 theorem source_facts_today :
@@ -61,7 +69,20 @@ theorem source_facts_today :
     Facts.Append.appendExemptErrors = ["connector.ErrMessageSizeExceedsLimits"] ∧
     Facts.Append.backendRecoveryGuards = ["DBIMAPStateWrite.CreateMailbox", "user.applyMailboxCreated",
       "user.applyMailboxDeleted", "user.applyMailboxIDChanged", "user.applyMailboxUpdated",
-      "user.applyMessageMailboxesUpdated", "user.applyMessagesCreated"] := by
+      "user.applyMessageMailboxesUpdated", "user.applyMessagesCreated"] ∧
+    -- the control flow the model transcribes: the error of `Insert` is not returned (`err == nil && alreadyKnown` is the
+    -- only test on it: an unhashable literal is stored anyway, `actionCreateRecovered`); the import loops of COPY / MOVE
+    -- out have no `continue` (a de-duplicated message is handed to `actionAddRecoveredMessagesToMailbox` like any other,
+    -- `importAll` / `addRecovered`); `State.Delete` does not rewrite the name it has guarded
+    Facts.Append.controlSkeleton = [
+      ("State.actionCreateRecoveredMessage", ["if err != nil", "if err == nil && alreadyKnown", "if err != nil", "if err != nil"]),
+      ("State.actionImportRecoveredMessage", ["if err != nil", "if err != nil", "if err != nil",
+        "if err != nil && !db.IsErrNotFound(err)", "if err == nil", "if err != nil", "if err != nil", "if err != nil", "if err != nil"]),
+      ("State.actionCopyMessagesOutOfRecoveryMailbox", ["for", "if err != nil", "if err != nil"]),
+      ("State.actionMoveMessagesOutOfRecoveryMailbox", ["for", "if err != nil", "if !deduped", "if err != nil", "if err != nil", "if err != nil"]),
+      ("State.actionAddRecoveredMessagesToMailbox", ["if err != nil", "if err != nil"]),
+      ("State.Delete", ["if strings.EqualFold(name, ids.GluonRecoveryMailboxName)", "if err != nil",
+        "if errors.Is(err, db.ErrNotFound)", "if err != nil", "if err != nil"])] := by
   decide
 
 /-! ## OK ⇒ present under the announced UID -/
@@ -132,6 +153,63 @@ theorem append_reject_recovered (H : Nat → Nat) (s s' : St) (n : String) (l : 
   · exact h1
   · have := hi l' (List.mem_cons_of_mem _ h3) l List.mem_cons_self h2
     rw [← this]; exact h1
+
+/-- **… and also when the content hash cannot be computed** (`l.hashOk = false`: some text part
+    declares base64 / quoted-printable and its body does not decode — such a literal passes
+    `rfcvalidation` and `imap.NewParsedMessage`): `actionCreateRecoveredMessage` ignores the error
+    of `MessageHashesMap.Insert` and stores the message without a hash.  For every state and script:
+    a rejected, parsable, unhashable message is never answered "known", and it is in the recovery
+    mailbox afterwards as this very message — unless the recovery insert's own store / database
+    write failed (which `Mailbox.Append` only logs).  Together with `append_reject_recovered` this
+    is "rejected ⇒ recovered" for every message shape. -/
+theorem append_reject_unhashable_recovered (H : Nat → Nat) (s s' : St) (n : String) (l : Lit) (e : Err) (known : Bool)
+    (h : append H s n l = (.rejected e known, s')) (hp : l.parseOk = true) (hh : l.hashOk = false) :
+    known = false ∧ (inRecovery s' l = true ∨
+      ∃ x e2, appendRegular s n l = (.error e, x) ∧ (withTx x (fun s => actionCreateRecovered H s l)).1 = .error e2) :=
+  reject_unhashable h hp hh
+
+/-- which literals cannot be hashed: exactly those with a text leaf whose declared base64 /
+    quoted-printable body does not decode; a broken body under any other type or encoding is hashed
+    as it is -/
+theorem unhashable_iff (ps : List Leaf) :
+    leavesHashOk ps = false ↔ ∃ p ∈ ps, p.text = true ∧ (p.cte = .base64 ∨ p.cte = .qp) ∧ p.decodes = false := by
+  induction ps with
+  | nil => simp [leavesHashOk]
+  | cons p r ih =>
+    have hc : leavesHashOk (p :: r) = (p.hashOk && leavesHashOk r) := by simp [leavesHashOk]
+    rw [hc, Bool.and_eq_false_iff, ih]
+    have hp : p.hashOk = false ↔ (p.text = true ∧ (p.cte = .base64 ∨ p.cte = .qp) ∧ p.decodes = false) := by
+      unfold Leaf.hashOk
+      cases p.text <;> cases p.decodes <;> cases p.cte <;> simp
+    rw [hp]
+    constructor
+    · rintro (h | ⟨q, hq, h⟩)
+      · exact ⟨p, List.mem_cons_self, h⟩
+      · exact ⟨q, List.mem_cons_of_mem _ hq, h⟩
+    · rintro ⟨q, hq, h⟩
+      rcases List.mem_cons.mp hq with rfl | hq
+      · exact Or.inl h
+      · exact Or.inr ⟨q, hq, h⟩
+
+/-- an unhashable message is recovered on every rejection (there is no hash to recognise it by):
+    the same bytes rejected twice are in the recovery mailbox twice; the hash map stays empty, also
+    across a restart.  Replayed on the real server: corpus/C20/unhashable.txt. -/
+theorem unhashable_recovered_each_time :
+    let m : Lit := { hv := 201, uv := 1, hashOk := false }
+    let r := run id (init { create := [.fail, .fail, .ok, .fail] })
+      [.append "INBOX" m, .append "INBOX" m, .restart, .append "INBOX" m, .append "INBOX" m]
+    r.1 = [.append (.rejected .remote false), .append (.rejected .remote false), .done, .append (.ok 1),
+           .append (.rejected .remote false)] ∧
+    recLits r.2 = [m, m, m] ∧ r.2.hashes = [] ∧ r.2.staleHash = false := by
+  decide
+
+/-- the storage proviso of `append_reject_unhashable_recovered` is needed: when the store write of
+    the recovery insert fails the message is nowhere (and, unlike #19, nothing remembers it). -/
+theorem unhashable_needs_storage :
+    let m : Lit := { hv := 201, uv := 1, hashOk := false }
+    let r := run id (init { create := [.fail], storeSet := [true] }) [.append "INBOX" m]
+    r.1 = [.append (.rejected .remote false)] ∧ recMsgs r.2 = [] ∧ r.2.staleHash = false := by
+  decide
 
 /-- **Once per distinct content hash**: two entries of the recovery mailbox whose (hashable)
     literals have the same hash are the same entry — in every reachable state in which no
@@ -252,15 +330,74 @@ theorem recovery_copy_out (s s' : St) (uids : List Nat) (dst : String) (r : Copy
 
 /-- **MOVE out of the recovery mailbox**: answered OK, every announced destination UID is in the
     destination and exactly the selected messages left the recovery mailbox; otherwise the recovery
-    mailbox is unchanged (a failed MOVE loses nothing: the rollback restores it). -/
+    mailbox is unchanged (a failed MOVE loses nothing: the rollback restores it).  The source UIDs
+    of the COPYUID are the selected ones — or none at all when fewer destination UIDs than selected
+    messages are reported (some were already in the destination): `moveSrcUids`, witness
+    `move_out_partly_deduped_copyuid`. -/
 theorem recovery_move_out (s s' : St) (uids : List Nat) (dst : String) (r : CopyRes)
     (h : move s recName uids dst = (r, s')) :
     ((∀ su du, r ≠ .ok su du) → recMsgs s' = recMsgs s) ∧
     ∀ su du, r = .ok su du →
       (∃ b', getBox s'.db dst = some b' ∧ ∀ u ∈ du, ∃ id, (u, id) ∈ b'.msgs) ∧
-      ∃ bs, getBox s.db recName = some bs ∧ su = (selectUids bs uids).map (·.1) ∧
+      ∃ bs, getBox s.db recName = some bs ∧
+        (su = (selectUids bs uids).map (·.1) ∨ (su = [] ∧ du.length ≠ (selectUids bs uids).length)) ∧
         recMsgs s' = (recMsgs s).filter (fun p => !((selectUids bs uids).map (·.2)).contains p.2) :=
   move_out_spec h
+
+/-- **Answered OK means "is in the destination" — whether or not the remote de-duplicated.**
+    COPY out of the recovery mailbox answered OK: every selected message was imported
+    (`actionImportRecoveredMessage`: as a new message, or — `deduped` — as the message the database
+    already has for the remote ID the connector answered with), as many as were selected, and EVERY
+    one of them is in the destination mailbox afterwards.  `deduped` only says the message exists
+    somewhere; the code labels it in the destination unless it already is there
+    (`actionAddRecoveredMessagesToMailbox`), and this theorem is what a "nothing to do for a
+    de-duplicated message" shortcut breaks.  For every state, script and UID set. -/
+theorem recovery_copy_out_arrives (s s' : St) (uids : List Nat) (dst : String) (su du : List Nat)
+    (h : copy s recName uids dst = (.ok su du, s')) :
+    ∃ bs nids s1, getBox s.db recName = some bs ∧
+      importAll { s with txIns := false, txErase := false } ((selectUids bs uids).map (·.2)) false = (.ok nids, s1) ∧
+      nids.length = (selectUids bs uids).length ∧
+      ∃ b', getBox s'.db dst = some b' ∧ ∀ i ∈ nids, boxHas b' i = true :=
+  copy_out_arrives h
+
+/-- **… and the same for MOVE** (where the selected messages also leave the recovery mailbox,
+    `recovery_move_out`: were one of them not to arrive it would be nowhere the user put it). -/
+theorem recovery_move_out_arrives (s s' : St) (uids : List Nat) (dst : String) (su du : List Nat)
+    (h : move s recName uids dst = (.ok su du, s')) :
+    ∃ bs nids s1, getBox s.db recName = some bs ∧
+      importAll { s with txIns := false, txErase := false } ((selectUids bs uids).map (·.2)) true = (.ok nids, s1) ∧
+      nids.length = (selectUids bs uids).length ∧
+      ∃ b', getBox s'.db dst = some b' ∧ ∀ i ∈ nids, boxHas b' i = true :=
+  move_out_arrives h
+
+/-- de-duplicated and carried into a THIRD mailbox: message 1 is rejected (recovered), then the
+    same bytes are accepted into INBOX; COPY and MOVE out of the recovery mailbox into `other`, the
+    remote answering with the remote ID it already has (`dup`): both are answered OK and `other`
+    holds the message (internal ID 1, the one INBOX holds) afterwards, once.
+    Replayed on the real server: corpus/C20/dedup-third-mailbox.txt. -/
+theorem deduped_into_third_mailbox_arrives :
+    let m : Lit := { hv := 1, uv := 1 }
+    let r := run id (init { create := [.fail, .ok, .dup, .dup] })
+      [.create "other", .append "INBOX" m, .append "INBOX" m, .copy recName [1] "other", .move recName [1] "INBOX",
+       .append "other" { hv := 2, uv := 1 }]
+    r.1 = [.status none, .append (.rejected .remote false), .append (.ok 1), .copy (.ok [1] [1]), .copy (.ok [] []),
+           .append (.ok 2)] ∧
+    (getBox r.2.db "other").map (·.msgs) = some [(1, 1), (2, 4)] ∧ (getBox r.2.db "INBOX").map (·.msgs) = some [(1, 1)] ∧
+    recMsgs r.2 = [] := by
+  decide
+
+/-- the COPYUID of a MOVE out of the recovery mailbox of two messages of which one is already in
+    the destination: one destination UID, and an EMPTY source set (`moveSrcUids`; the server sends
+    `[COPYUID v  2]`).  Both messages are in the destination.
+    Replayed on the real server: corpus/C20/move-partly-deduped.txt. -/
+theorem move_out_partly_deduped_copyuid :
+    let a : Lit := { hv := 1, uv := 1 }
+    let b : Lit := { hv := 2, uv := 1 }
+    let r := run id (init { create := [.fail, .fail, .ok, .dup, .ok] })
+      [.append "INBOX" a, .append "INBOX" b, .append "INBOX" a, .move recName [1, 2] "INBOX"]
+    r.1 = [.append (.rejected .remote false), .append (.rejected .remote false), .append (.ok 1), .copy (.ok [] [2])] ∧
+    ((getBox r.2.db "INBOX").map (·.msgs)).map (·.length) = some 2 ∧ recMsgs r.2 = [] := by
+  decide
 
 /-- **A recovered message can be copied out**: if the remote and the storage accept the next calls,
     COPY of a message of the recovery mailbox into a normal mailbox with room answers OK
@@ -316,6 +453,19 @@ example : ∃ l', inRecovery (append id exState "INBOX" { hv := 1, uv := 1 }).2 
     (l' = { hv := 1, uv := 1 } ∨ l' ∈ recLits exState) :=
   append_reject_recovered_partial id exState _ "INBOX" { hv := 1, uv := 1 } .remote true (reachable_run _ _ (Reachable.init _ _))
     (Prod.ext (by decide) rfl) ⟨rfl, rfl⟩ (by unfold NoStorageFaultAfterHashInsert; decide)
+
+/-- `append_reject_unhashable_recovered`: an unhashable message rejected in a state that already holds a recovered one -/
+example : (append id exState "INBOX" { hv := 201, uv := 1, hashOk := false }).1 = .rejected .remote false ∧
+    inRecovery (append id exState "INBOX" { hv := 201, uv := 1, hashOk := false }).2 { hv := 201, uv := 1, hashOk := false } = true := by
+  decide
+
+/-- recovered, then the same bytes accepted into INBOX: the remote holds them -/
+def exDedup : St := (run id (init { create := [.fail, .ok, .dup, .dup] })
+  [.create "other", .append "INBOX" { hv := 1, uv := 1 }, .append "INBOX" { hv := 1, uv := 1 }]).2
+
+/-- `recovery_copy_out_arrives` / `recovery_move_out_arrives`: COPY and MOVE of a de-duplicated message into a third mailbox are answered OK -/
+example : (copy exDedup recName [1] "other").1 = .ok [1] [1] ∧ (move exDedup recName [1] "other").1 = .ok [1] [1] := by
+  decide
 
 /-- `recovery_once_per_hash`, `recovery_listed_iff_nonempty`, `recovery_exists_once`: hypotheses hold in `exState` -/
 example : NoFaultAfterHashErase exState ∧ recMsgs exState = [(1, 0)] ∧ (recName ∈ list exState) := by
